@@ -71,8 +71,8 @@ Qed.
 
 Lemma private_op_state st b i : fst (private_op st b i) = st.
 Proof.
-  unfold private_op. destruct (primary_unlocked (k_pkts st)); [|reflexivity].
-  destruct (nth_error (k_pkts st) i); [|reflexivity]. destruct (b && negb (unlocked_flag p)); reflexivity.
+  unfold private_op. destruct (b && negb (primary_unlocked (k_pkts st))); [reflexivity|].
+  destruct (nth_error (k_pkts st) i); [|reflexivity]. destruct (unlocked_flag p); reflexivity.
 Qed.
 
 (* a Locked packet with at least one secret field does not pass PrivKeyV4.unlocked *)
@@ -138,10 +138,10 @@ Section Auto.
   Proof.
     destruct st as [k sc]. unfold inv, open_scope. cbn [k_pkts k_scopes]. intros H.
     destruct o; unfold step; cbn [k_pkts k_scopes].
-    - destruct (primary_protected k && negb (primary_unlocked k)); cbn [fst k_pkts k_scopes]; [exact H|].
+    - destruct (any_locked k); cbn [fst k_pkts k_scopes]; [exact H|].
       destruct (can_encrypt alg); cbn [fst k_pkts k_scopes]; [|exact H].
       rewrite (all_zero_locked _ (protect_pkts_zero pass alg halg count k rnd)). apply orb_true_r.
-    - destruct (negb (primary_protected k)); cbn [fst k_pkts k_scopes].
+    - destruct (negb (any_protected k)); cbn [fst k_pkts k_scopes].
       + cbn [existsb]. exact H.
       + destruct (ENTER pass k); cbn [fst k_pkts k_scopes].
         * rewrite map_relock_locked. apply orb_true_r.
@@ -183,7 +183,7 @@ Section Auto.
     intros [-> | ->] H; unfold step; destruct (k_scopes st) as [|[|] s]; cbn [fst k_pkts]; auto using map_relock_locked.
   Qed.
 
-  Lemma failed_enter_clears st pass kind : primary_protected (k_pkts st) = true -> ENTER pass (k_pkts st) = inl kind ->
+  Lemma failed_enter_clears st pass kind : any_protected (k_pkts st) = true -> ENTER pass (k_pkts st) = inl kind ->
     STEP st (OEnter pass) = ({| k_pkts := map relock (k_pkts st); k_scopes := k_scopes st |}, BRaised kind).
   Proof. intros Hp He. unfold step. rewrite Hp, He. reflexivity. Qed.
 
@@ -206,7 +206,7 @@ Section Auto.
   Lemma neutral_scopes st o : scope_neutral o = true -> k_scopes (fst (STEP st o)) = k_scopes st.
   Proof.
     destruct o; try discriminate; intros _; unfold step.
-    - destruct (primary_protected (k_pkts st) && negb (primary_unlocked (k_pkts st))); [reflexivity|].
+    - destruct (any_locked (k_pkts st)); [reflexivity|].
       destruct (can_encrypt alg); reflexivity.
     - rewrite private_op_state. reflexivity.
     - rewrite private_op_state. reflexivity.
@@ -217,7 +217,7 @@ Section Auto.
     forallb locked_or_unprot (k_pkts (fst (STEP st o))) = true.
   Proof.
     destruct o; try discriminate; intros _ H; unfold step.
-    - destruct (primary_protected (k_pkts st) && negb (primary_unlocked (k_pkts st))); cbn [fst k_pkts]; [exact H|].
+    - destruct (any_locked (k_pkts st)); cbn [fst k_pkts]; [exact H|].
       destruct (can_encrypt alg); cbn [fst k_pkts]; [|exact H].
       apply all_zero_locked. apply protect_pkts_zero.
     - rewrite private_op_state. exact H.
@@ -236,7 +236,7 @@ Section Auto.
     - intros Hz. apply I2. apply neutral_lou; assumption.
   Qed.
 
-  Lemma enter_state st p : primary_protected (k_pkts st) = true ->
+  Lemma enter_state st p : any_protected (k_pkts st) = true ->
     fst (STEP st (OEnter p)) = match ENTER p (k_pkts st) with
                                | inl _ => {| k_pkts := map relock (k_pkts st); k_scopes := k_scopes st |}
                                | inr k' => {| k_pkts := k'; k_scopes := true :: k_scopes st |}
@@ -249,7 +249,7 @@ Section Auto.
   (* with key.unlock(p): body ; normal exit or exception -- also when entering fails half-way through the subkeys.
      Since e967622 the conclusion speaks about the PROTECTED packets only (an unprotected subkey, e.g. one attached by the
      body, keeps its secret: [subkey_added_in_scope_survives], [unprotected_untouched]) *)
-  Lemma scope_exit_locks st0 p body o : exit_op o -> forallb scope_neutral body = true -> primary_protected (k_pkts st0) = true ->
+  Lemma scope_exit_locks st0 p body o : exit_op o -> forallb scope_neutral body = true -> any_protected (k_pkts st0) = true ->
     let st := RUN (OEnter p :: body ++ [o]) st0 in
     forallb locked_or_unprot (k_pkts st) = true /\
     (forall c, In c (k_pkts st) -> protected c = true -> all_zero c = true /\ exists b, view c = Locked b) /\
@@ -309,9 +309,11 @@ Section Auto.
     - inversion H. constructor.
     - destruct (p_blob c) as [bl|] eqn:Eb.
       + destruct (unprotect_blob cfb_dec sha1 s2k (length (p_fields c)) bl pass); try discriminate.
-        destruct (ENTER pass k) as [?|r'] eqn:Er; [discriminate|]. inversion H; subst.
-        constructor; [|apply IH; reflexivity].
-        split; [cbn [p_blob]; symmetry; exact Eb | unfold protected; rewrite Eb; discriminate].
+        * destruct (ENTER pass k) as [?|r'] eqn:Er; [discriminate|]. inversion H; subst.
+          constructor; [|apply IH; reflexivity].
+          split; [cbn [p_blob]; symmetry; exact Eb | unfold protected; rewrite Eb; discriminate].
+        * destruct (ENTER pass k) as [?|r'] eqn:Er; [discriminate|]. inversion H; subst.
+          constructor; [split; auto | apply IH; reflexivity].
       + destruct (ENTER pass k) as [?|r'] eqn:Er; [discriminate|]. inversion H; subst.
         constructor; [split; auto | apply IH; reflexivity].
   Qed.
@@ -319,7 +321,7 @@ Section Auto.
   Lemma step_same st o : keeps_pkts o = true -> Forall2 same_unprot (k_pkts st) (k_pkts (fst (STEP st o))).
   Proof.
     destruct o; try discriminate; intros _; unfold step.
-    - destruct (negb (primary_protected (k_pkts st))); cbn [fst k_pkts]; [apply same_unprot_refl|].
+    - destruct (negb (any_protected (k_pkts st))); cbn [fst k_pkts]; [apply same_unprot_refl|].
       destruct (ENTER pass (k_pkts st)) as [kind|k'] eqn:E; cbn [fst k_pkts]; [apply relock_same | apply (enter_same pass); exact E].
     - destruct (k_scopes st) as [|[|] s]; cbn [fst k_pkts]; auto using same_unprot_refl, relock_same.
     - destruct (k_scopes st) as [|[|] s]; cbn [fst k_pkts]; auto using same_unprot_refl, relock_same.
@@ -343,7 +345,7 @@ Section Auto.
     (snd (STEP st (OProtect pass alg halg count rnd)) = BWarned \/ snd (STEP st (OProtect pass alg halg count rnd)) = BRaised 2).
   Proof.
     intros Hc. unfold step. rewrite Hc.
-    destruct (primary_protected (k_pkts st) && negb (primary_unlocked (k_pkts st))); split; auto.
+    destruct (any_locked (k_pkts st)); split; auto.
   Qed.
   (* ... hence every later observation is the one the untouched key gives: same export, same passphrase *)
   Lemma refused_protect_invisible st pass alg halg count rnd ops : can_encrypt alg = false ->
@@ -353,28 +355,53 @@ Section Auto.
     intros Hc. destruct (refused_protect_unchanged st pass alg halg count rnd Hc) as [E _].
     rewrite run_cons, E. split; reflexivity.
   Qed.
+  (* repair 080d1e8: while any component is protected and locked, protect only warns *)
+  Lemma protect_refused_while_any_locked st pass alg halg count rnd : any_locked (k_pkts st) = true ->
+    STEP st (OProtect pass alg halg count rnd) = (st, BWarned).
+  Proof. intros H. unfold step. rewrite H. reflexivity. Qed.
   (* an accepted cipher on a key that is not locked does protect *)
   Lemma accepted_protect st pass alg halg count rnd : can_encrypt alg = true ->
-    primary_protected (k_pkts st) && negb (primary_unlocked (k_pkts st)) = false ->
+    any_locked (k_pkts st) = false ->
     STEP st (OProtect pass alg halg count rnd) =
     ({| k_pkts := PROTECT pass alg halg count rnd (k_pkts st); k_scopes := k_scopes st |}, BDone).
   Proof. intros Hc Hl. unfold step. rewrite Hl, Hc. reflexivity. Qed.
 
   (* ---------- a locked key refuses private operations ---------- *)
-  Lemma locked_refuses st c rest i : k_pkts st = c :: rest -> protected c = true -> all_zero c = true -> p_fields c <> [] ->
+  (* since repair cab6d36 the condition is checked on the component that does the work: a locked COMPONENT refuses to sign
+     and to decrypt; a locked primary refuses its own signatures and every decryption (PGPKey.decrypt checks the key it is
+     called on before it re-dispatches) *)
+  Lemma locked_component_refuses st c i : nth_error (k_pkts st) i = Some c -> protected c = true -> all_zero c = true -> p_fields c <> [] ->
     STEP st (OSign i) = (st, BRefused) /\ STEP st (ODecrypt i) = (st, BRefused).
   Proof.
-    intros Hk Hp Hz Hn. unfold step, private_op. rewrite Hk. cbn [primary_unlocked].
-    rewrite (locked_flag c Hp Hz Hn). split; reflexivity.
+    intros Hk Hp Hz Hn. unfold step, private_op. rewrite Hk, (locked_flag c Hp Hz Hn). cbn [andb].
+    split; [reflexivity|]. destruct (negb (primary_unlocked (k_pkts st))); reflexivity.
+  Qed.
+
+  Lemma locked_refuses st c rest i : k_pkts st = c :: rest -> protected c = true -> all_zero c = true -> p_fields c <> [] ->
+    STEP st (OSign 0) = (st, BRefused) /\ STEP st (ODecrypt i) = (st, BRefused).
+  Proof.
+    intros Hk Hp Hz Hn. split.
+    - apply (locked_component_refuses st c 0); [rewrite Hk; reflexivity | assumption..].
+    - unfold step, private_op. rewrite Hk. cbn [primary_unlocked]. rewrite (locked_flag c Hp Hz Hn). reflexivity.
   Qed.
 
   Lemma locked_refuses_run st0 ops c rest i : inv st0 = true ->
     open_scope (RUN ops st0) = false -> k_pkts (RUN ops st0) = c :: rest -> protected c = true -> p_fields c <> [] ->
-    STEP (RUN ops st0) (OSign i) = (RUN ops st0, BRefused) /\ STEP (RUN ops st0) (ODecrypt i) = (RUN ops st0, BRefused).
+    STEP (RUN ops st0) (OSign 0) = (RUN ops st0, BRefused) /\ STEP (RUN ops st0) (ODecrypt i) = (RUN ops st0, BRefused).
   Proof.
     intros Hi Ho Hk Hp Hn.
     destruct (inv_locked _ (inv_run ops st0 Hi) Ho c) as [Hz _]; [rewrite Hk; left; reflexivity | exact Hp |].
     apply (locked_refuses _ c rest i Hk Hp Hz Hn).
+  Qed.
+
+  (* after any history that leaves no real scope open, every protected component (primary or subkey) refuses *)
+  Lemma locked_component_refuses_run st0 ops c i : inv st0 = true ->
+    open_scope (RUN ops st0) = false -> nth_error (k_pkts (RUN ops st0)) i = Some c -> protected c = true -> p_fields c <> [] ->
+    STEP (RUN ops st0) (OSign i) = (RUN ops st0, BRefused) /\ STEP (RUN ops st0) (ODecrypt i) = (RUN ops st0, BRefused).
+  Proof.
+    intros Hi Ho Hk Hp Hn.
+    destruct (inv_locked _ (inv_run ops st0 Hi) Ho c) as [Hz _]; [apply (nth_error_In _ i); exact Hk | exact Hp |].
+    apply (locked_component_refuses _ c i Hk Hp Hz Hn).
   Qed.
 
   (* ---------- a wrong passphrase leaves a locked key exactly as it was ---------- *)
@@ -385,10 +412,90 @@ Section Auto.
     rewrite (proj2 (unprotect_reject_iff cfb_dec sha1 s2k _ b pass) Hg). reflexivity.
   Qed.
 
-  Lemma wrong_pass_stays_locked st pass kind : primary_protected (k_pkts st) = true -> forallb locked_or_unprot (k_pkts st) = true ->
+  Lemma wrong_pass_stays_locked st pass kind : any_protected (k_pkts st) = true -> forallb locked_or_unprot (k_pkts st) = true ->
     ENTER pass (k_pkts st) = inl kind -> STEP st (OEnter pass) = (st, BRaised kind).
   Proof.
     intros Hp Hz He. rewrite (failed_enter_clears st pass kind Hp He). rewrite (map_relock_id _ Hz). destruct st; reflexivity.
+  Qed.
+
+  (* ---------- the scope locks again exactly what it unlocked (repairs a8a4c11 / 9a72221) ---------- *)
+  Lemma zeros_repeat l : zeros l = repeat 0 (length l).
+  Proof. induction l as [|x l IH]; [reflexivity|]. cbn [zeros map length repeat]. unfold zeros in IH. rewrite IH. reflexivity. Qed.
+  Lemma parse_mpis_length n : forall b, length (fst (parse_mpis n b)) = n.
+  Proof.
+    induction n as [|n IH]; intros b; [reflexivity|]. cbn [parse_mpis]. destruct (mpi_parse b) as [v r].
+    specialize (IH r). destruct (parse_mpis n r) as [vs r']. cbn [fst length] in *. rewrite IH. reflexivity.
+  Qed.
+  Lemma unprotect_blob_length n bl pass ms r : unprotect_blob cfb_dec sha1 s2k n bl pass = UOk ms r -> length ms = n.
+  Proof.
+    destruct bl as [b|]; cbn [unprotect_blob]; [|discriminate]. unfold unprotect_std.
+    destruct (gate sha1 (b_usage b) (decrypt_std cfb_dec s2k b pass)); [|discriminate].
+    assert (L := parse_mpis_length n (decrypt_std cfb_dec s2k b pass)).
+    destruct (parse_mpis n (decrypt_std cfb_dec s2k b pass)) as [ms' r']. intros H. inversion H as [[E1 E2]]. rewrite <- E1. exact L.
+  Qed.
+  (* a stub is passed over when entering (repair 9a72221; before, it raised NotImplementedError out of the loop) *)
+  Lemma enter_skips_stub pass c r u a e sn rs : p_blob c = Some (BGnu u a e sn rs) ->
+    ENTER pass (c :: r) = match ENTER pass r with inr r' => inr (c :: r') | inl k => inl k end.
+  Proof. intros H. cbn [enter_pkts]. rewrite H. reflexivity. Qed.
+
+  Lemma enter_relock pass : forall k k', ENTER pass k = inr k' -> forallb locked_or_unprot k = true -> map relock k' = k.
+  Proof.
+    induction k as [|c k IH]; intros k' H L; cbn [enter_pkts] in H.
+    - inversion H. reflexivity.
+    - cbn [forallb] in L. apply andb_true_iff in L. destruct L as [Lc Lk].
+      destruct (p_blob c) as [bl|] eqn:Eb.
+      + destruct (unprotect_blob cfb_dec sha1 s2k (length (p_fields c)) bl pass) as [ms r| | |] eqn:U; try discriminate.
+        * destruct (ENTER pass k) as [?|r'] eqn:Er; [discriminate|]. inversion H; subst. cbn [map]. rewrite (IH r' eq_refl Lk). f_equal.
+          unfold relock, protected. cbn [p_blob]. unfold clear. cbn [p_blob p_fields p_chk].
+          unfold locked_or_unprot, protected in Lc. rewrite Eb in Lc. cbn [negb orb] in Lc.
+          destruct c as [cb cf cc]. cbn [p_blob p_fields p_chk] in *. subst cb. f_equal.
+          rewrite (zeros_repeat ms), (unprotect_blob_length _ _ _ _ _ U), <- zeros_repeat. apply zeros_id. exact Lc.
+        * destruct (ENTER pass k) as [?|r'] eqn:Er; [discriminate|]. inversion H; subst. cbn [map].
+          rewrite (IH r' eq_refl Lk), (relock_id c Lc). reflexivity.
+      + destruct (ENTER pass k) as [?|r'] eqn:Er; [discriminate|]. inversion H; subst. cbn [map].
+        rewrite (IH r' eq_refl Lk), (relock_id c Lc). reflexivity.
+  Qed.
+
+  Definition reads_only (o : op) : bool := match o with OSign _ | ODecrypt _ | OExport => true | _ => false end.
+  Lemma run_reads body : forall st, forallb reads_only body = true -> RUN body st = st.
+  Proof.
+    induction body as [|o r IH]; intros st H; [reflexivity|]. cbn [forallb] in H. apply andb_true_iff in H. destruct H as [Ho Hr].
+    rewrite run_cons. destruct o; try discriminate; unfold step; rewrite ?private_op_state; cbn [fst]; apply IH; exact Hr.
+  Qed.
+
+  (* `with key.unlock(p): <use the key>`: inside, exactly the protected non-stub components carry secret integers (every
+     other component is as it was); afterwards the key is EXACTLY what it was -- whichever components are protected *)
+  Lemma scope_relocks_exactly st0 p body o k' : exit_op o -> forallb reads_only body = true ->
+    any_protected (k_pkts st0) = true -> forallb locked_or_unprot (k_pkts st0) = true -> ENTER p (k_pkts st0) = inr k' ->
+    fst (STEP st0 (OEnter p)) = {| k_pkts := k'; k_scopes := true :: k_scopes st0 |} /\
+    Forall2 same_unprot (k_pkts st0) k' /\
+    RUN (OEnter p :: body ++ [o]) st0 = st0.
+  Proof.
+    intros Ho Hb Hp Hl He. assert (E1 : fst (STEP st0 (OEnter p)) = {| k_pkts := k'; k_scopes := true :: k_scopes st0 |}).
+    { rewrite (enter_state st0 p Hp), He. reflexivity. }
+    split; [exact E1|]. split; [exact (enter_same p _ _ He)|].
+    rewrite run_cons, run_app, run_one, E1, (run_reads body _ Hb).
+    rewrite (exit_clears {| k_pkts := k'; k_scopes := true :: k_scopes st0 |} o (k_scopes st0) Ho eq_refl). cbn [k_pkts]. rewrite (enter_relock p _ _ He Hl). destruct st0; reflexivity.
+  Qed.
+
+  (* the rules before the repairs looked at the primary key only *)
+  Lemma enter_old_refuted : exists st pass, any_protected (k_pkts st) = true /\ snd (enter_old cfb_dec sha1 s2k st pass) = BWarned /\
+    STEP st (OEnter pass) <> enter_old cfb_dec sha1 s2k st pass.
+  Proof.
+    exists {| k_pkts := [ {| p_blob := None; p_fields := [5]; p_chk := [0; 5] |};
+                          {| p_blob := Some (BGnu 254 0 1 [] []); p_fields := [0]; p_chk := [] |} ]; k_scopes := [] |}, [1].
+    split; [reflexivity|]. split; [reflexivity|]. cbn. intros H. inversion H.
+  Qed.
+  Lemma protect_old_refuted : exists st, any_locked (k_pkts st) = true /\
+    STEP st (OProtect [1] 9 8 96 []) = (st, BWarned) /\
+    snd (protect_old cfb_enc sha1 s2k st [1] 9 8 96 []) = BDone /\
+    nth_error (k_pkts (fst (protect_old cfb_enc sha1 s2k st [1] 9 8 96 []))) 1 =
+      Some {| p_blob := Some (BStd (mk_sblob cfb_enc sha1 s2k 254 9 3 8 [] 96 [] [1] [0])); p_fields := [0]; p_chk := [] |}.
+  Proof.
+    exists {| k_pkts := [ {| p_blob := None; p_fields := [5]; p_chk := [0; 5] |};
+                          {| p_blob := Some (BStd {| b_usage := 254; b_alg := 9; b_spec := 3; b_halg := 8; b_salt := []; b_count := 96;
+                                                     b_iv := []; b_enc := [1; 2; 3] |}); p_fields := [0]; p_chk := [] |} ]; k_scopes := [] |}.
+    repeat split.
   Qed.
 
   (* ---------- the right passphrase restores the secret integers ---------- *)
@@ -421,7 +528,139 @@ Section Auto.
     rewrite (unprotect_std_protect cfb_enc cfb_dec sha1 s2k cfb_inv sha1_len 254 alg 3 halg _ count _ pass (p_fields c) Hc (or_introl eq_refl)).
     rewrite S. reflexivity.
   Qed.
+
+  (* ---------- protect never encrypts a locked component (repair 080d1e8) ---------- *)
+  (* idealisation of the acceptance gate: two passphrases the gate lets through give the same integers (false for about
+     one wrong passphrase in 65536 under the 16-bit checksum, and then the CODE hands out and re-encrypts wrong integers) *)
+  Hypothesis gate_sound : forall n b p1 p2 m1 r1 m2 r2,
+    unprotect_std cfb_dec sha1 s2k n b p1 = UOk m1 r1 -> unprotect_std cfb_dec sha1 s2k n b p2 = UOk m2 r2 -> m2 = m1.
+
+  (* component c carries the original secret integers s: in the clear when it is not protected; otherwise its ciphertext
+     decrypts to s (under some passphrase) and its fields are s or cleared; a stub has no secret fields *)
+  Definition faithful1 (s : list Z) (c : pkt) : Prop :=
+    length (p_fields c) = length s /\
+    match p_blob c with
+    | None => p_fields c = s
+    | Some (BStd b) => (exists pass r, unprotect_std cfb_dec sha1 s2k (length s) b pass = UOk s r) /\ (p_fields c = s \/ all_zero c = true)
+    | Some (BGnu _ _ _ _ _) => all_zero c = true
+    end.
+  Definition faithful (orig : list (list Z)) (k : list pkt) : Prop := Forall2 faithful1 orig k.
+  (* the ghost list of original secrets grows when add_subkey attaches a component *)
+  Definition orig_step (st : kst) (orig : list (list Z)) (o : op) : list (list Z) :=
+    match o with OAddSub ms _ => if primary_unlocked (k_pkts st) then orig ++ [ms] else orig | _ => orig end.
+  Fixpoint run_orig (ops : list op) (st : kst) (orig : list (list Z)) : list (list Z) :=
+    match ops with [] => orig | o :: r => run_orig r (fst (STEP st o)) (orig_step st orig o) end.
+  Definition op_wf (o : op) : Prop := match o with OAddSub ms _ => wf_mpis ms | _ => True end.
+
+  Lemma zero_nonzero_nil c : all_zero c = true -> fields_nonzero c = true -> p_fields c = [].
+  Proof.
+    unfold all_zero, fields_nonzero. destruct (p_fields c) as [|x l]; [reflexivity|]. cbn [forallb existsb].
+    intros H1 H2. apply andb_true_iff in H1. destruct H1 as [Hx _]. rewrite Hx in H2. discriminate.
+  Qed.
+  (* a component that is not locked has its original secret integers in its fields *)
+  Lemma not_locked_fields s c : faithful1 s c -> locked_comp c = false -> p_fields c = s.
+  Proof.
+    intros [Hl F] L. unfold locked_comp, protected, unlocked_flag, protected in L.
+    destruct (p_blob c) as [[b|u a e sn rs]|]; [| |exact F]; cbn [andb] in L; apply negb_false_iff in L.
+    - destruct F as [_ [F|F]]; [exact F|]. assert (E := zero_nonzero_nil c F L). rewrite E in *. destruct s; [reflexivity|discriminate].
+    - assert (E := zero_nonzero_nil c F L). rewrite E in *. destruct s; [reflexivity|discriminate].
+  Qed.
+  Lemma relock_faithful1 s c : faithful1 s c -> faithful1 s (relock c).
+  Proof.
+    intros F. unfold relock. destruct (protected c) eqn:P; [|exact F]. destruct F as [Hl F]. unfold faithful1.
+    cbn [clear p_blob p_fields]. rewrite zeros_length. split; [exact Hl|]. unfold protected in P.
+    destruct (p_blob c) as [[b|u a e sn rs]|]; [| |discriminate].
+    - destruct F as [F _]. split; [exact F|]. right. apply all_zero_clear.
+    - apply all_zero_clear.
+  Qed.
+  Lemma relock_faithful orig k : faithful orig k -> faithful orig (map relock k).
+  Proof. intros F. induction F; cbn [map]; constructor; [apply relock_faithful1|]; assumption. Qed.
+
+  Lemma protect_faithful pass alg halg count : forall orig k rnd, Forall wf_mpis orig -> faithful orig k -> any_locked k = false ->
+    faithful orig (PROTECT pass alg halg count rnd k).
+  Proof.
+    intros orig k rnd W F. revert rnd W. induction F as [|s c orig k Fc _ IH]; intros rnd W L; [constructor|].
+    cbn [any_locked existsb] in L. apply orb_false_iff in L. destruct L as [Lc Lk].
+    inversion W as [|? ? Ws Wo]; subst. cbn [protect_pkts]. constructor; [|apply IH; assumption].
+    assert (E := not_locked_fields s c Fc Lc). unfold faithful1, protect_pkt. cbn [p_blob p_fields]. rewrite zeros_length, E.
+    split; [reflexivity|]. split; [|right; unfold all_zero; cbn [p_fields]; apply zeros_all_zero].
+    exists pass. eexists. apply (unprotect_std_protect_any cfb_enc cfb_dec sha1 s2k cfb_inv sha1_len 254 alg 3 halg _ count _ pass s Ws).
+  Qed.
+
+  Lemma enter_faithful pass : forall orig k k', faithful orig k -> ENTER pass k = inr k' -> faithful orig k'.
+  Proof.
+    intros orig k k' F. revert k'. induction F as [|s c orig k Fc _ IH]; intros k' H; cbn [enter_pkts] in H.
+    - inversion H. constructor.
+    - destruct (p_blob c) as [bl|] eqn:Eb.
+      + destruct (unprotect_blob cfb_dec sha1 s2k (length (p_fields c)) bl pass) as [ms r| | |] eqn:U; try discriminate.
+        * destruct (ENTER pass k) as [?|r'] eqn:Er; [discriminate|]. inversion H; subst. constructor; [|apply IH; reflexivity].
+          destruct Fc as [Hl Fc]. rewrite Eb in Fc. destruct bl as [b|]; [|discriminate]. cbn [unprotect_blob] in U. rewrite Hl in U.
+          destruct Fc as [(p0 & r0 & D) _]. assert (E := gate_sound _ _ _ _ _ _ _ _ D U). subst ms.
+          unfold faithful1. cbn [p_blob p_fields]. split; [reflexivity|]. split; [exists p0, r0; exact D | left; reflexivity].
+        * destruct (ENTER pass k) as [?|r'] eqn:Er; [discriminate|]. inversion H; subst. constructor; [exact Fc | apply IH; reflexivity].
+      + destruct (ENTER pass k) as [?|r'] eqn:Er; [discriminate|]. inversion H; subst. constructor; [exact Fc | apply IH; reflexivity].
+  Qed.
+
+  Lemma faithful_step st orig o : Forall wf_mpis orig -> faithful orig (k_pkts st) -> op_wf o ->
+    Forall wf_mpis (orig_step st orig o) /\ faithful (orig_step st orig o) (k_pkts (fst (STEP st o))).
+  Proof.
+    intros W F Wo. destruct o; unfold step, orig_step.
+    - split; [exact W|]. destruct (any_locked (k_pkts st)) eqn:L; cbn [fst k_pkts]; [exact F|].
+      destruct (can_encrypt alg); cbn [fst k_pkts]; [apply protect_faithful; assumption | exact F].
+    - split; [exact W|]. destruct (negb (any_protected (k_pkts st))); cbn [fst k_pkts]; [exact F|].
+      destruct (ENTER pass (k_pkts st)) as [kind|k'] eqn:E; cbn [fst k_pkts]; [apply relock_faithful; exact F | exact (enter_faithful pass _ _ _ F E)].
+    - split; [exact W|]. destruct (k_scopes st) as [|[|] s]; cbn [fst k_pkts]; auto using relock_faithful.
+    - split; [exact W|]. destruct (k_scopes st) as [|[|] s]; cbn [fst k_pkts]; auto using relock_faithful.
+    - rewrite private_op_state. split; assumption.
+    - rewrite private_op_state. split; assumption.
+    - split; assumption.
+    - split; [exact W|]. cbn [fst k_pkts]. apply relock_faithful. exact F.
+    - destruct (primary_unlocked (k_pkts st)); cbn [fst k_pkts]; [|split; assumption]. split.
+      + apply Forall_app. split; [exact W | constructor; [exact Wo | constructor]].
+      + apply Forall2_app; [exact F|]. constructor; [|constructor]. split; reflexivity.
+  Qed.
+
+  (* after ANY history: every component still carries its original secret integers -- in the clear when it is not protected,
+     otherwise inside a ciphertext that decrypts to them.  In particular protect never wrote a ciphertext of cleared fields. *)
+  Lemma protect_never_encrypts_a_locked_component ops : forall st orig, Forall wf_mpis orig -> faithful orig (k_pkts st) ->
+    Forall op_wf ops -> faithful (run_orig ops st orig) (k_pkts (RUN ops st)).
+  Proof.
+    induction ops as [|o r IH]; intros st orig W F Wo; [exact F|].
+    inversion Wo as [|? ? Wo1 Wor]; subst. cbn [run_orig]. rewrite run_cons.
+    destruct (faithful_step st orig o W F Wo1) as [W' F']. apply IH; assumption.
+  Qed.
+  (* what [faithful] says about one component *)
+  Lemma faithful_spec orig k : faithful orig k ->
+    Forall2 (fun s c => (p_blob c = None -> p_fields c = s) /\
+                        (forall b, p_blob c = Some (BStd b) -> exists pass r, unprotect_std cfb_dec sha1 s2k (length s) b pass = UOk s r)) orig k.
+  Proof.
+    intros F. induction F as [|s c orig k [Hl Fc] _ IH]; constructor; [|exact IH]. split.
+    - intros E. rewrite E in Fc. exact Fc.
+    - intros b E. rewrite E in Fc. destruct Fc as [D _]. exact D.
+  Qed.
+  (* a freshly protected key (protect on an unprotected key with well-formed secrets) is faithful *)
+  Lemma unprotected_faithful k : Forall (fun c => p_blob c = None) k -> faithful (map p_fields k) k.
+  Proof. intros H. induction H as [|c k Hc _ IH]; cbn [map]; constructor; [|exact IH]. split; [reflexivity|]. rewrite Hc. reflexivity. Qed.
 End Auto.
+
+(* ---------- the premises of the theorems above are satisfiable (trivial primitives: identity cipher) ---------- *)
+Definition triv_cfb : Z -> bytes -> bytes -> bytes -> bytes := fun _ _ _ x => x.
+Definition triv_sha1 : bytes -> bytes := fun _ => repeat 0 20.
+Definition triv_s2k : Z -> Z -> Z -> bytes -> Z -> bytes -> bytes := fun _ _ _ _ _ _ => [].
+Lemma triv_prims_ok :
+  (forall a k iv x, triv_cfb a k iv (triv_cfb a k iv x) = x) /\ (forall x, length (triv_sha1 x) = 20%nat) /\
+  (forall n b p1 p2 m1 r1 m2 r2, unprotect_std triv_cfb triv_sha1 triv_s2k n b p1 = UOk m1 r1 ->
+                                 unprotect_std triv_cfb triv_sha1 triv_s2k n b p2 = UOk m2 r2 -> m2 = m1).
+Proof.
+  split; [reflexivity|]. split; [reflexivity|]. intros n b p1 p2 m1 r1 m2 r2 H1 H2.
+  unfold unprotect_std, decrypt_std, triv_cfb in *. rewrite H1 in H2. inversion H2. reflexivity.
+Qed.
+(* a key with an unprotected primary, a protected-and-locked stub subkey: enters, and the premises of the scope theorem hold *)
+Lemma scope_premises_inhabited (cfb_dec : Z -> bytes -> bytes -> bytes -> bytes) (sha1 : bytes -> bytes)
+  (s2k : Z -> Z -> Z -> bytes -> Z -> bytes -> bytes) :
+  let k := [ {| p_blob := None; p_fields := [5]; p_chk := [0; 5] |}; {| p_blob := Some (BGnu 254 0 1 [] []); p_fields := [0]; p_chk := [] |} ] in
+  any_protected k = true /\ forallb locked_or_unprot k = true /\ enter_pkts cfb_dec sha1 s2k [1] k = inr k.
+Proof. repeat split. Qed.
 
 (* ---------- symbolic origin of every protected export ---------- *)
 Section Sym.
@@ -451,7 +690,7 @@ Section Sym.
   Proof.
     unfold export_secret, protect_pkt, protect, blob_emit, s2k_emit_std, mk_sblob, protect_enc.
     cbn [p_blob b_usage b_alg b_spec b_halg b_salt b_count b_iv b_enc fst snd].
-    change (254 =? 254) with true. change (1 <=? 3) with true. change (3 =? 3) with true. cbv iota.
+    change (legacy 254) with false. change (254 =? 254) with true. change (1 <=? 3) with true. change (3 =? 3) with true. cbv iota.
     cbn [app]. rewrite <- !app_assoc. reflexivity.
   Qed.
 
@@ -490,9 +729,9 @@ Section Sym.
   Lemma step_ok st syms o : Forall2 sym_ok (k_pkts st) syms -> Forall2 sym_ok (k_pkts (fst (STEP st o))) (step_sym st syms o).
   Proof.
     intros H. destruct o; unfold step, step_sym.
-    - destruct (primary_protected (k_pkts st) && negb (primary_unlocked (k_pkts st))); cbn [fst k_pkts]; [exact H|].
+    - destruct (any_locked (k_pkts st)); cbn [fst k_pkts]; [exact H|].
       destruct (can_encrypt alg); cbn [fst k_pkts]; [apply protect_ok | exact H].
-    - destruct (negb (primary_protected (k_pkts st))); cbn [fst k_pkts]; [exact H|].
+    - destruct (negb (any_protected (k_pkts st))); cbn [fst k_pkts]; [exact H|].
       destruct (enter_pkts cfb_dec sha1 s2k pass (k_pkts st)) as [kind|k'] eqn:E; cbn [fst k_pkts].
       + apply (same_blobs_ok (k_pkts st)); [apply map_same_blobs; apply relock_blob | exact H].
       + apply (same_blobs_ok (k_pkts st)); [apply enter_same_blobs with (pass := pass); exact E | exact H].
